@@ -169,8 +169,51 @@ def hostile_leaf(rnd: random.Random, pool: list[str]) -> str:
     return f">={vs[0]}"
 
 
+def adjacent_unions_tree(rnd: random.Random, pool: list[str]) -> list | None:
+    """Two multi-range unions, the left one entirely below the right one and *touching* it
+    (last upper bound == first lower bound, exactly one side inclusive), combined with | and
+    usually complemented afterwards - the shape on which an unmerged pair becomes observable."""
+    vs = sorted({Version(v) for v in pool})
+    if len(vs) < 7:
+        return None
+    k = rnd.randint(2, 3)
+    m = rnd.randint(2, 3)
+    need = 2 * (k + m) - 1
+    if len(vs) < need:
+        k = m = 2
+        need = 7
+    pts = sorted(rnd.sample(vs, need))
+
+    def ranges(ps, first_lo=None, last_hi=None):
+        out = []
+        for i in range(0, len(ps) - 1, 2):
+            lo = first_lo if (i == 0 and first_lo) else f"{rnd.choice(['>', '>='])}{ps[i]}"
+            hi = last_hi if (i + 2 >= len(ps) and last_hi) else f"{rnd.choice(['<', '<='])}{ps[i + 1]}"
+            out.append(f"{lo},{hi}")
+        return "||".join(out)
+
+    left_pts, right_pts = pts[: 2 * k], pts[2 * k - 1:]
+    incl_left = rnd.random() < 0.5
+    shared = left_pts[-1]
+    left = ranges(left_pts, last_hi=f"{'<=' if incl_left else '<'}{shared}")
+    right = ranges(right_pts + ([right_pts[-1]] if len(right_pts) % 2 else []), first_lo=f"{'>' if incl_left else '>='}{shared}")
+    t = ["or", ["leaf", left], ["leaf", right]]
+    if rnd.random() < 0.3:
+        t = ["or", t[2], t[1]]
+    r = rnd.random()
+    if r < 0.5:
+        t = ["not", t]
+    elif r < 0.7:
+        t = ["and", ["not", t], ["leaf", f">={pts[0]}"]]
+    return t
+
+
 def gen_tree(rnd: random.Random, pool: list[str], depth: int, *, arbitrary: bool = False,
              closure: list | None = None, hostile_p: float = 0.3) -> list:
+    if depth >= 2 and hostile_p and rnd.random() < 0.06:
+        t = adjacent_unions_tree(rnd, pool)
+        if t is not None:
+            return t
     if depth <= 0 or rnd.random() < 0.25:
         k = rnd.random()
         if closure and k < 0.25:
